@@ -211,16 +211,87 @@ def check(run, model, tier):
     g = cfg_of(r)
     run.touch(r, g)
     heads = [h for h in g.loop_heads()]
-    gets = [n for n in g.nodes if n.kind not in ('entry', 'exit', 'xexit', 'def') and any(isinstance(c.func, ast.Attribute) and c.func.attr == 'get' for c in n.calls())]
-    fns = [n for n in g.nodes if n.kind not in ('entry', 'exit', 'xexit', 'def') and any(isinstance(c.func, ast.Name) and c.func.id not in ('print',) and
-                                                                                         c.func.id in local_defs(r.node) for c in n.calls())]
-    if len(heads) == 1:
-        start = [m for m, l in g.succ[heads[0]] if l == 'true']
-        gc = queues.count(g, gets, start=start[0], end=heads[0])
-        fc = queues.count(g, fns, start=start[0], end=heads[0])
-        run.inst('LIVE.writer', r, 'one item taken and one fn(content) per iteration', gc == (1, 1) and fc == (1, 1), 'gets %s, calls %s per iteration' % (gc, fc), obligation=True)
-    else:
+    outer = [h for h in heads if not any(h in g.loop_body(o) for o in heads if o is not h)]
+    if len(outer) != 1:
         raise AnalysisError('writer thread: loop not found')
+    qname = '_queue'
+
+    def on_queue(c, meths):
+        return isinstance(c.func, ast.Attribute) and c.func.attr in meths and (dotted(c.func.value) or '').endswith('.' + qname)
+    live = [n for n in g.nodes if n.kind not in ('entry', 'exit', 'xexit', 'def')]
+    takes = [n for n in live if any(on_queue(c, ('get', 'get_nowait')) for c in n.calls())]
+    ldefs_r = local_defs(r.node)
+    item_names = {k_ for k_, v_ in ldefs_r.items() if any(isinstance(d_, ast.Call) and on_queue(d_, ('get', 'get_nowait')) for d_ in v_ if isinstance(d_, ast.AST))}
+    derived = {k_ for k_, v_ in ldefs_r.items() if any(isinstance(d_, ast.Attribute) and isinstance(d_.value, ast.Name) and d_.value.id in item_names for d_ in v_ if isinstance(d_, ast.AST))}
+
+    def is_fn_call(c):
+        if isinstance(c.func, ast.Name) and c.func.id in derived and c.func.id != 'print':
+            return True
+        return isinstance(c.func, ast.Attribute) and isinstance(c.func.value, ast.Name) and c.func.value.id in item_names and c.func.attr not in ('task_done',)
+    fns = [n for n in live if any(is_fn_call(c) for c in n.calls())]
+    run.floor('writer thread: places where an item is taken', len(takes), 1)
+    run.floor('writer thread: places where a callback is called', len(fns), 1)
+
+    def simple_paths_counts(start, stops, weight):
+        """(min, max) number of weight-nodes on simple paths from start to a node of `stops` (or the exit); normal edges only"""
+        res = []
+        budget = [20000]
+
+        def rec(n, onpath, k):
+            budget[0] -= 1
+            if budget[0] < 0:
+                raise AnalysisError('writer thread: too many paths')
+            if n in stops or n is g.exit:
+                res.append(k)
+                return
+            k2 = k + (1 if n in weight else 0)
+            nxt = [m for m, lab in g.succ[n] if m not in onpath]
+            if not nxt:
+                res.append(k2)
+                return
+            for m in nxt:
+                rec(m, onpath | {m}, k2)
+        for m, lab in g.succ[start]:
+            rec(m, {start, m}, 0)
+        return (min(res), max(res)) if res else None
+    for t_ in takes:
+        nowait = any(on_queue(c, ('get_nowait',)) for c in t_.calls())
+        # a non-blocking take may raise Empty instead of delivering: that way out makes no callback (0), the delivering way exactly one
+        cnt = simple_paths_counts(t_, set(takes) | set(outer), set(fns))
+        okc = cnt in ((1, 1),) or (nowait and cnt == (0, 1))
+        run.inst('LIVE.writer', r, 'one item taken and one fn(content) per iteration', okc,
+                 '' if okc else 'between taking an item (%s) and the next take the writer makes %s callback calls: a line is dropped or written twice' % (norm(t_.ast if t_.kind == 'stmt' else t_.stmt)[:50], cnt),
+                 node=t_.ast if t_.kind == 'stmt' else None, obligation=True)
+    # ---- how the writer sleeps: a blocking get() on the queue itself wakes for every put.  A separate flag (Event.wait) loses a wake-up unless the flag is cleared
+    # *before* the queue is found empty - a line put between "found empty" and clear() sets the flag first and has it cleared afterwards, and stays in the queue
+    waits = [(n, c) for n in live for c in n.calls() if isinstance(c.func, ast.Attribute) and c.func.attr == 'wait' and not (dotted(c.func.value) or '').endswith('.' + qname)]
+    for wn, wc in waits:
+        ev = dotted(wc.func.value)
+        clears = {n for n in live for c in n.calls() if isinstance(c.func, ast.Attribute) and c.func.attr == 'clear' and dotted(c.func.value) == ev}
+        observes = [n for n in live if any(on_queue(c, ('get_nowait', 'empty', 'qsize')) for c in n.calls())]
+
+        def reach_avoiding(a, targets, avoid):
+            seen, todo = {a}, [a]
+            while todo:
+                n = todo.pop()
+                for m, _l in g.succ[n]:
+                    if m in avoid or m in seen:
+                        continue
+                    if m in targets:
+                        return m
+                    seen.add(m)
+                    todo.append(m)
+            return None
+        hit = reach_avoiding(wn, set(observes), clears)
+        okw = hit is None and bool(clears)
+        run.inst('LIVE.writer', r, 'the wake-up flag %s is cleared before the queue is examined' % ev, okw,
+                 '' if okw else ('the writer thread sleeps on %s.wait() and examines the queue (%s) before it clears the flag: a line that is put - and the flag set - after the queue was found '
+                                 'empty but before %s.clear() runs has its wake-up erased; the writer sleeps with the line still queued and it is never handed to the callback unless '
+                                 'later output happens to wake it' % (ev, norm(hit.ast if hit is not None and hit.kind == 'stmt' else wc)[:50], ev)), node=wc, obligation=True)
+    if not waits:
+        blocking = [n for n in takes if any(on_queue(c, ('get',)) and not c.args and not any(k.arg in ('block', 'timeout') for k in c.keywords) for c in n.calls())]
+        run.inst('LIVE.writer', r, 'the writer sleeps in a blocking get() of its queue', bool(blocking),
+                 '' if blocking else 'the writer thread neither blocks in get() nor waits on a flag: it spins or exits while lines are pending', obligation=True)
     qtypes = cg.field_types.get((wr.name, '_queue'), set())
     run.inst('LIVE.writer', wr.name, 'the writer queue is a FIFO Queue', qtypes == {'Queue'}, 'writer queue type is %s' % sorted(map(str, qtypes)), obligation=True)
     # started only when not alive
